@@ -11,7 +11,7 @@ filters are merged with a boolean AND", 400 for an unknown resource class); para
 resources_query_1_4, inventory fields min_unit / max_unit / step_size / reserved /
 allocation_ratio); rest_api_version_history.rst 1.3, 1.4 (note on min_unit, max_unit, step_size),
 1.14, 1.18 (unknown trait -> 400), 1.22, 1.24, 1.32, 1.39.  Nothing is copied from
-placement/objects: the oracle is five set comprehensions over Dump rows, capacity in IEEE doubles.
+placement/objects: the oracle is one loop over the Dump rows, capacity in IEEE doubles.
 
 Query grammar (per state, all values are concrete strings derived from the state's *focus*: the
 provider / class / trait / aggregate its decoration touched; a base state is evaluated under
@@ -40,7 +40,7 @@ from vp import http
 from vp import scope
 from vp.enum import EnumWorker
 from vp.http import R
-from vp.names import A, P, SHARING, UNKNOWN_UUID, pname
+from vp.names import P, SHARING, UNKNOWN_UUID, pname
 
 UNK_AGG = 'aaaaaaaa-0000-4000-8000-ffffffffffff'
 NOPE_TRAIT = 'CUSTOM_NOPE'
@@ -51,6 +51,12 @@ KINDS = ('name', 'uuid', 'in_tree', 'member_of', 'required', 'resources')
 VERSIONS = ('1.3', '1.4', '1.14', '1.18', '1.22', '1.24', '1.32', '1.38')
 LATEST = '1.39'
 AMOUNTS = (1, 2, 3, 4, 5, 8, 9)
+BASE_PARTS = 8
+# values that select nothing / everything (or are answered 400) in every state, by construction
+BY_CONSTRUCTION = frozenset([
+    'member_of=!UNK', 'name=unknown', 'name=empty', 'uuid=unknown', 'in_tree=unknown', 'member_of=UNK',
+    'member_of=A&!A', 'required=unknown', 'required=in:T,unknown', 'required=!unknown',
+    'resources=unknown', 'resources=c:1,unknown'])
 
 
 def ver(mv):
@@ -430,20 +436,23 @@ def judge(dump, f, resp, reasons=None):
             got = [x['uuid'] for x in resp.json['resource_providers']]
         except Exception:
             return 'bad', 'body', 'unparsable 200 body %r' % resp.raw[:200], False
+    if got is not None:
+        cat = 'empty' if not got else 'full' if len(set(got)) == n_all else 'partial'
+    else:
+        cat = '400' if resp.status == 400 else 'other'
     if want_400:
         if resp.status == 400:
-            return '400', None, '', empty_clause
+            return cat, None, '', empty_clause
         if empty_clause and resp.status == 200 and got == []:
-            return 'empty', None, '', True
-        return (str(resp.status), 'status:%d-not-400' % resp.status,
+            return cat, None, '', True
+        return (cat, 'status:%d-not-400' % resp.status,
                 'an unknown trait / resource class must be answered 400, got %d %s' % (
                     resp.status, (got if got is not None else resp.raw[:200])), False)
     if resp.status != 200:
-        return (str(resp.status), 'status:%d-not-200' % resp.status,
-                'expected 200 with %s, got %d %s' % (sorted(x[-2:] for x in want), resp.status,
+        return (cat, 'status:%d-not-200' % resp.status,
+                'expected 200 with %s, got %d %s' % (sorted(short(x) for x in want), resp.status,
                                                      resp.raw[:300]), False)
     gs = set(got)
-    cat = 'empty' if not gs else 'full' if len(gs) == n_all else 'partial'
     if len(got) != len(gs):
         return cat, 'duplicate', 'duplicates in the response: %s' % sorted(got), False
     if gs != want:
@@ -469,12 +478,12 @@ class Worker(EnumWorker):
         self.bases = dict(scope.bases())
 
     def case(self, c):
-        bname, deltas, thorough = c
+        bname, deltas, thorough, (part, nparts) = c
         desc = scope.apply_deltas(bname, self.bases[bname], deltas)
         setup = scope.compile_state(desc)
         self.restore(self.build(setup))
         dump = self.dump()
-        qs = queries(desc, thorough)
+        qs = queries(desc, thorough)[part::nparts]
         cats = {}
         viols = []
         reasons = collections.Counter()
@@ -493,8 +502,7 @@ class Worker(EnumWorker):
             row = cats.get(key)
             if row is None:
                 row = cats[key] = [0, 0, 0, 0, 0]
-            row[('empty', 'full', 'partial', '400').index(cat)
-                if cat in ('empty', 'full', 'partial', '400') else 4] += 1
+            row[('empty', 'full', 'partial', '400', 'other').index(cat)] += 1
             if cat == 'partial':
                 got = tuple(sorted(x['uuid'] for x in resp.json['resource_providers']))
                 nontrivial.add((labels, mv, got))
@@ -524,19 +532,27 @@ def state_cases(k, same_provider_pairs, thorough):
     """(name, case) per state; a case carries only (base, deltas, tier flag): the worker rebuilds
     the description deterministically."""
     for name, desc, _ in scope.states(k, same_provider_pairs=same_provider_pairs):
-        yield name, (desc['base'], tuple(tuple(d) for d in desc['deltas']), thorough)
+        nparts = 1 if desc['deltas'] else BASE_PARTS      # base states carry the full grammar
+        for part in range(nparts):
+            yield name, (desc['base'], tuple(tuple(d) for d in desc['deltas']), thorough,
+                         (part, nparts))
 
 
 def _drive(ctx, named_cases, on_result, deadline):
+    """Feed one state per task; at most 3 tasks per worker are in flight, so the deadline is
+    looked at while the work proceeds (imap would otherwise swallow the whole list at once)."""
+    import threading
     from vp.boot import make_base_image
     from vp.workers import Pool
     base_img = make_base_image()
     pool = Pool(ctx.workers, 'vp.props.c13', 'make_worker', (base_img,))
     pending = collections.deque()
     stopped = [False]
+    slots = threading.Semaphore(3 * ctx.workers)
 
     def chunks():
         for name, c in named_cases:
+            slots.acquire()
             if ctx.elapsed() > deadline:
                 stopped[0] = True
                 break
@@ -546,7 +562,10 @@ def _drive(ctx, named_cases, on_result, deadline):
         for res in pool.map(chunks()):
             name, c = pending.popleft()
             on_result(name, c, res[0])
+            slots.release()
     finally:
+        for _ in range(8 * ctx.workers):
+            slots.release()
         pool.close()
     return not stopped[0]
 
@@ -579,6 +598,7 @@ def run(ctx):
     distinct_nontrivial = [0]
     ambiguous = [0]
     states_done = collections.Counter()
+    tasks_done = [0]
     cats = {}
     reasons = collections.Counter()
     samples = []
@@ -590,7 +610,9 @@ def run(ctx):
         evaluations[0] += r['n']
         distinct_nontrivial[0] += r['nontrivial']
         ambiguous[0] += r['ambiguous']
-        states_done[len(c[1])] += 1
+        tasks_done[0] += 1
+        if c[3][0] == 0:
+            states_done[len(c[1])] += 1
         per_base[c[0]] += r['n']
         for key, row in r['cats'].items():
             tot = cats.get(key)
@@ -612,8 +634,9 @@ def run(ctx):
 
     complete = _drive(ctx, ordered, on_result, budget)
     if not complete:
-        ctx.cap('stopped by the time budget after %d of %d states (order: 0, 1, 2 decorations)'
-                % (sum(states_done.values()), len(ordered)))
+        ctx.cap('stopped by the time budget after %d of %d tasks (one task = one decorated state '
+                'or 1/%d of a base state; order: 0, 1, 2 decorations)'
+                % (tasks_done[0], len(ordered), BASE_PARTS))
 
     # ---- violations: one signature per minimal failing filter combination -------------------
     # A set mismatch is keyed by the exact filter values; a wrong status by the unknown item and
@@ -661,10 +684,14 @@ def run(ctx):
 
     # ---- evidence -------------------------------------------------------------------------------
     never = []
+    never_by_construction = 0
     outcome = collections.Counter()
     for (labels, mv), row in sorted(cats.items()):
         if row[2] == 0:
-            never.append('%s@%s' % ('&'.join(labels), mv))
+            if any(l in BY_CONSTRUCTION for l in labels):
+                never_by_construction += 1      # contains a value meant to be trivial
+            else:
+                never.append('%s@%s' % ('&'.join(labels), mv))
         for i, n in enumerate(('empty', 'full', 'partial', '400', 'other')):
             outcome[n] += row[i]
     by_arity = collections.Counter(len(labels) for labels, _ in cats)
@@ -699,8 +726,9 @@ def run(ctx):
         'outcomes': dict(outcome),
         'combination_classes': len(cats),
         'combination_classes_by_active_filters': {str(n): v for n, v in sorted(by_arity.items())},
-        'never_discriminating': never[:400],
+        'never_discriminating': never[:300],
         'never_discriminating_count': len(never),
+        'never_discriminating_by_construction_count': never_by_construction,
         'outcomes_per_class_1_39_up_to_pairs [empty, full, partial, 400]': show,
         'resource_constraint_roles': dict(reasons),
         'ambiguous_accepted': ambiguous[0],
@@ -740,8 +768,13 @@ def replay(ctx, data):
     req = data['request']
     resp = http.call(h.app, req)
     cat, kind, detail, _ = judge(dump, data['filters'], resp)
-    line = 'GET /resource_providers?%s @%s -> %s %s' % (
-        req.get('query', ''), req['mv'], resp.status, resp.raw[:600].decode('utf-8', 'replace'))
+    try:
+        body = 'resource_providers: %s' % [short(x['uuid'])
+                                          for x in resp.json['resource_providers']]
+    except Exception:
+        body = resp.raw[:400].decode('utf-8', 'replace')
+    line = 'state %s: GET /resource_providers?%s @%s -> %s %s' % (
+        data.get('state'), req.get('query', ''), req['mv'], resp.status, body)
     if kind:
         return False, '%s\n  %s: %s' % (line, kind, detail)
     return True, line
